@@ -46,6 +46,31 @@ def case_structural(R, D, n, seed_key, diag, strong):
     return Case(label, fn)
 
 
+def case_history(R, D, n, seed_key, diag):
+    """sample -> update(idx, d) in place -> sample again: the second draw follows the updated components (nothing derived
+    from the old parameters may survive), and the untouched components are bit-identical for the same key"""
+    label = f"sample-history/R{R}/D{D}/n{n}/key{seed_key}/diag{int(diag)}"
+    def fn(m):
+        rng = gen.rng_path(m.seed, label)
+        fails = []
+        p = mk_pdf(m, rng, R, D, diag=diag, scale=2.0)
+        params = dict(R=R, D=D, n=n, key=seed_key, diag=diag)
+        first = m.sample(p.reg, seed_key, n)
+        K = int(rng.integers(1, R + 1)); uidx = rng.permutation(R)[:K]
+        d = mk_pdf(m, rng, K, D, diag=diag, scale=3.0)
+        m.update(p.reg, uidx, d.reg)
+        S = p.Sigma.copy(); mu = p.mu.copy(); S[uidx] = d.Sigma; mu[uidx] = d.mu
+        s = m.sample(p.reg, seed_key, n)
+        if m.regs.get(s) is None or m.regs.get(first) is None:
+            fails.append(failure(PROPERTY, "sample:after-update", f"sample raised: {m.impl[-1][1:]}", params=params)); return fails
+        z = np.asarray(jax.random.normal(jax.random.PRNGKey(seed_key), (n, R, D)))
+        exp = mu[None] + np.einsum("rij,nrj->nri", np.linalg.cholesky(S), z)
+        fail_if(fails, PROPERTY, "sample:after-update", "draws after update() are not mu_r + chol(Sigma_r) z of the UPDATED components",
+                np.asarray(m.regs[s]), exp, params=dict(params, uidx=[int(i) for i in uidx]))
+        return fails
+    return Case(label, fn)
+
+
 def case_statistical(R, D, seed_key):
     label = f"sample-moments/R{R}/D{D}/key{seed_key}"
     def fn(m):
@@ -79,6 +104,8 @@ def cases(seed, tier):
         grid.append((int(rng.integers(1, 5)), int(rng.integers(1, 6)), int(rng.integers(1, 6)), bool(rng.integers(0, 2)), bool(rng.integers(0, 2))))
     for i, (R, D, n, dg, st) in enumerate(grid):
         out.append(case_structural(R, D, n, int(rng.integers(0, 1000)) + i, dg, st))
+    out.append(case_history(3, 2, 3, 5, True)); out.append(case_history(2, 3, 2, 6, False))
     if tier != "quick":
+        out.append(case_history(4, 4, 3, 7, True))
         out.append(case_statistical(2, 3, 11)); out.append(case_statistical(3, 2, 12))
     return seeded(out, seed)
